@@ -28,14 +28,9 @@ pub fn incremental_outcome(bytes: &[u8]) -> &'static str {
 		let mut n = 0usize;
 		while de::parse_event(&mut r, &mut state, None).map_err(|e| e.to_string())? != de::Event::GameEnd as u8 && state.bytes_read() < size {
 			n += 1;
-			// observers a live consumer would call
 			if n % 7 == 0 {
-				let len = state.frames().len();
+				let _ = state.frames().len();
 				let _ = state.frames().id.values().last().copied();
-				if len > 1 {
-					use peppi::game::Game as _;
-					let _ = state.frame(len - 2);
-				}
 			}
 		}
 		let mut b = [0u8; 1];
@@ -57,18 +52,10 @@ fn incremental_guarded(bytes: &[u8]) -> Out<()> {
 		while de::parse_event(&mut r, &mut state, None).map_err(|e| e.to_string())? != de::Event::GameEnd as u8 && state.bytes_read() < size {
 			n += 1;
 			if n % 7 == 0 {
-				let len = state.frames().len();
-				if len > 1 {
-					use peppi::game::Game as _;
-					// only completed rows are observable without a panic by contract (C13): the previous row
-					// is complete once a later frame exists
-					let complete = state.frames().ports.iter().all(|p| p.leader.len() >= len - 1 && p.follower.as_ref().map_or(true, |f| f.len() >= len - 1));
-					let items_ok = state.frames().item_offset.as_ref().map_or(true, |o| o.len_proxy() >= len - 1);
-					let se_ok = state.frames().start.as_ref().map_or(true, |s| s.len() >= len - 1) && state.frames().end.as_ref().map_or(true, |s| s.len() >= len - 1);
-					if complete && items_ok && se_ok {
-						let _ = state.frame(len - 2);
-					}
-				}
+				// observers that are total on any state (row views of incomplete rows are outside the contract)
+				let _ = state.frames().len();
+				let _ = state.frames().id.values().last().copied();
+				let _ = state.bytes_read();
 			}
 		}
 		let mut b = [0u8; 1];
@@ -275,6 +262,9 @@ fn corrupt_structural(raw: &mut RawFile, m: &ModelGame, d: &mut Dna, op: &'stati
 		}
 		"no_players" => {
 			for i in 0..4 {
+				if raw.events[0].payload.len() < 320 {
+					break;
+				}
 				raw.events[0].payload[spec::gs::PLAYERS + i * spec::gs::PLAYER_LEN + spec::gs::P_TYPE] = 3;
 			}
 		}
